@@ -31,6 +31,9 @@ var c13PrefixItems = []string{
 	"{{ 'r\n\ns' }}\n",
 	"{{ \"p\\\nq\" }}",   // a backslash directly before the line feed inside a string
 	"{{ \"a\\\"\nb\" }}", // an escaped quote, then a line feed
+	// earlier, harmless mentions of what the faults are made of: in a branch that is not taken, and as a loop variable
+	"@if(false){{ zz }}{{ 1 + \"a\" }}{{ \"s\".zz() }}{{ {a: 1}.zz }}{{ 1 / 0 }}{{ 5 % 0 }}@each(v in 5)x@end@end\n",
+	"@each(zz in [1]){{ zz }}\n@end",
 }
 
 type c13Fault struct {
@@ -122,12 +125,12 @@ func c13Check(cs c13Case) (ok bool, sig, expected, observed string) {
 		case 6:
 			// the fault sits in a slot body that the page passes to a component
 			t.Files["comp.tw"] = "<c>\n\n\n@slot</c>"
-			t.Files["index.tw"] = src[:strings.Index(src, f.src)] + `@component("comp")@slot ` + f.src + "@end@end\ntail"
+			t.Files["index.tw"] = src[:strings.LastIndex(src, f.src)] + `@component("comp")@slot ` + f.src + "@end@end\ntail"
 			wantPath = t.abs("index.tw")
 		case 5:
 			// the fault is the expression argument of an insert of a page that uses a layout
 			expr := strings.TrimSuffix(strings.TrimPrefix(f.src, "{{ "), " }}")
-			pre := src[:strings.Index(src, f.src)]
+			pre := src[:strings.LastIndex(src, f.src)]
 			t.Files["lay.tw"] = "<l>\n@reserve(\"a\")\n@reserve(\"b\")</l>"
 			t.Files["index.tw"] = `@use("lay")` + "\n@insert(\"b\")B@end" + pre + `@insert("a", ` + expr + ")\ntail"
 			line = 2 + strings.Count(pre, "\n")
@@ -214,7 +217,7 @@ func c13Run(c *Ctx) {
 						ok, sig, exp, obs := c13Check(cs)
 						c.Evals(1)
 						src, _ := c13Build(cs)
-						c.Case(strings.Count(src[:strings.Index(src, f.src)], "\n") > 0)
+						c.Case(strings.Count(src[:strings.LastIndex(src, f.src)], "\n") > 0)
 						if order%997 == 1 {
 							c.Sample(map[string]any{"case": cs, "expected": clip(exp, 300), "observed": clip(obs, 200)})
 						}
